@@ -5,6 +5,19 @@ from relsad.Time import Time
 from relsad.topology.ICT.dfs import is_connected
 
 
+def is_disconnector(switch):
+    """
+    Returns True if the switch is a Disconnector (and not a CircuitBreaker)
+
+    The Disconnector class cannot be imported at module level
+    (circular import), the name Disconnector imported above is bound
+    to the sub-module
+    """
+    from relsad.network.components import Disconnector as DisconnectorClass
+
+    return isinstance(switch, DisconnectorClass)
+
+
 class SectionState(Enum):
     """
     Section state
@@ -157,10 +170,15 @@ class Section:
             line.connect()
         for switch in self.switches:
             # Skip if switch is a CircuitBreaker
-            if not isinstance(switch, type(Disconnector)):
-                break
+            if not is_disconnector(switch):
+                continue
+            # If no intelligent switch on the disconnector
+            if switch.intelligent_switch is None:
+                # Repair crew is assumed to be present repairing the line,
+                # they close the switch manually
+                switch.close()
             # If no ICT network
-            if controller.ict_node is None:
+            elif controller.ict_node is None:
                 switch.intelligent_switch.close(dt)
             # If both components have ICT nodes
             elif (
@@ -227,10 +245,13 @@ class Section:
         need_manual_attention = False
         for switch in self.switches:
             # Skip if switch is a CircuitBreaker
-            if not isinstance(switch, type(Disconnector)):
-                break
+            if not is_disconnector(switch):
+                continue
+            # If no intelligent switch on the disconnector
+            if switch.intelligent_switch is None:
+                need_manual_attention = True
             # If no ICT network
-            if controller.ict_node is None:
+            elif controller.ict_node is None:
                 sectioning_time += switch.intelligent_switch.get_open_time(dt)
             # If both components have ICT nodes
             elif (
